@@ -6,9 +6,12 @@
   Cog/Builder/Spec.lean.  Helper lemmas: Cog/Builder/FromASTLemmas.lean, Cog/Builder/Safe.lean.
 
   Where the code deviates from the property, the model follows the code:
-    * an object whose reference chain ends in an unresolvable reference makes `FromAST` panic
-      (`IsAnyOf(KindStruct, KindRef)` then `AsStruct()`), so totality is `C16_total_partial`
-      under the decidable hypothesis `Safe`, with `C16_total_counterexample`;
+    * `FromAST` is not total: an alias cycle makes `Schemas.ResolveToType` recurse forever (a Go stack
+      overflow), a nil kind pointer or a constraint without argument panics; totality is
+      `C16_total_partial` under the decidable hypothesis `Safe`, with `C16_total_counterexample`.
+      (Until /repo eed3e31 a *dangling* alias chain panicked too — `IsAnyOf(KindStruct, KindRef)` then
+      `AsStruct()`; now it yields no builder: `C16_dangling_no_builder`, and the former behaviour stays a
+      checked statement about `fromASTPreFix`: `C16_dangling_panicked_before_fix`.)
     * a field that references a constant object but is optional or nullable gets an option although
       the schema fixes its value, so coverage against the property's reading (`specClass`) is
       `C16_cover_partial` under `noOptionalConstRef`, with `C16_cover_counterexample`; coverage
@@ -125,10 +128,19 @@ def C16_cover_full : Prop :=
 
 theorem C16_total_counterexample : ¬ C16_total_full := by
   intro hfull
-  obtain ⟨bs, hbs⟩ := hfull danglingWitness
-  have : (match fromAST danglingWitness with | .panic _ => true | _ => false) = true := by decide
+  obtain ⟨bs, hbs⟩ := hfull cycleWitness
+  have : (match fromAST cycleWitness with | .err _ => true | _ => false) = true := by decide
   rw [hbs] at this
   exact absurd this (by simp)
+
+/-- an object whose reference chain ends in an unresolvable reference gets no builder (and nothing
+    else happens) — the behaviour since /repo eed3e31 -/
+theorem C16_dangling_no_builder :
+    (match fromAST danglingWitness with | .ok [] => true | _ => false) = true := by decide
+
+/-- … where the derivation used to panic -/
+theorem C16_dangling_panicked_before_fix :
+    (match fromASTPreFix danglingWitness with | .panic _ => true | _ => false) = true := by decide
 
 theorem C16_cover_counterexample : ¬ C16_cover_full := by
   intro hfull
@@ -178,6 +190,7 @@ theorem C16_total_partial (ss : Schemas) (hs : Safe ss = true) : ∃ bs, fromAST
   fromAST_ok_of_safe ss hs
 
 example : Safe optionalConstRefWitness = true := by decide
-example : Safe danglingWitness = false := by decide
+example : Safe danglingWitness = true := by decide
+example : Safe cycleWitness = false := by decide
 
 end Cog.Builder
